@@ -306,6 +306,8 @@ class TyGen:
         nb = binders
         if hname(t) == "HFnPtr":
             nb = h[1]
+        if k == "C":
+            return t                      # const types stay usize
         return ("Node", h, [self.derive(c, p, nb) for c in t[2]])
 
     def pair(self):
@@ -392,21 +394,6 @@ class StepRes:
         self.msg = str(r[1]) if self.kind == "Panic" else None
         self.state = State(sxv[2]) if sxv[2] != "NoState" else None
 
-    def to_coq(self, prev_state):
-        flag = {"Ok": ("ROk", []), "Err": "RErr", "Panic": "RPanic"}
-        if self.kind == "Unit":
-            res = "RUnit"
-        elif self.kind == "Ok":
-            res = ("ROk", self.goals)
-        elif self.kind == "Err":
-            res = "RErr"
-        elif self.kind == "Panic":
-            res = "RPanic"
-        else:
-            res = ("RBoth", flag[self.both[0]], flag[self.both[1]])
-        st = self.state if self.state is not None else prev_state
-        return Pair(res, st.to_coq())
-
 
 def parse_trace(line):
     """-> list of StepRes (cut after a panic), or None if the harness could not run the case."""
@@ -422,11 +409,18 @@ def parse_trace(line):
 
 
 def trace_to_coq(trace):
-    out, prev = [], None
+    """One observation per relate / both step, as coq/Infer/Script.v's [run] produces them."""
+    out = []
     for s in trace:
-        out.append(s.to_coq(prev))
-        if s.state is not None:
-            prev = s.state
+        if s.kind == "Unit":
+            continue
+        if s.kind == "Both":
+            flag = {"Ok": ("ROk", []), "Err": "RErr", "Panic": "RPanic"}
+            out.append(Pair(("RBoth", flag[s.both[0]], flag[s.both[1]]), "empty_table"))
+        elif s.kind == "Panic":
+            out.append(Pair("RPanic", "empty_table"))
+        else:
+            out.append(Pair(("ROk", s.goals) if s.kind == "Ok" else "RErr", s.state.to_coq()))
     return out
 
 
@@ -466,25 +460,26 @@ def norm_goals(st, goals):
 
 
 def goal_facts(goals):
-    """(outlives pairs, alias-eq pairs, subtype pairs) of normalised goals, as sexp strings."""
-    out, al, sub = set(), set(), set()
+    """(outlives pairs, alias-eq goals, subtype pairs) of normalised goals; pairs as sexp strings, alias-eq goals
+    as (alias sexp, type term)."""
+    out, al, sub = set(), [], set()
     for g in goals:
         if hname(g) == "HDomainGoal" and hname(g[2][0]) == "HHolds":
             w = g[2][0][2][0]
             if hname(w) == "HLtOutlives":
                 out.add((sx.to_sexp(w[2][0]), sx.to_sexp(w[2][1])))
             elif hname(w) == "HAliasEq":
-                al.add((sx.to_sexp(w[2][0]), sx.to_sexp(w[2][1])))
+                al.append((sx.to_sexp(w[2][0]), w[2][1]))
         elif hname(g) == "HSubtypeGoal":
             sub.add((sx.to_sexp(g[2][0]), sx.to_sexp(g[2][1])))
     return out, al, sub
 
 
-def eq_mod(a, b, facts, variance="Invariant"):
+def eq_mod(a, b, facts, variance="Invariant", depth=0):
     """a, b deep-normalised.  Equal up to: lifetime pairs related by returned outlives goals (both
-    directions if invariant, one otherwise), alias positions covered by an AliasEq goal, unknown pairs
-    covered by a subtype goal, error types/lifetimes (which chalk unifies with anything).
-    Returns None if equal, else a description of the first difference."""
+    directions if invariant, one otherwise), alias positions covered by an AliasEq goal whose type is in turn
+    equal to the other side, unknown pairs covered by a subtype goal, error types/lifetimes (which chalk unifies
+    with anything).  Returns None if equal, else a description of the first difference."""
     outl, al, sub = facts
     ka, kb = kind(a), kind(b)
     if ka != kb:
@@ -501,26 +496,23 @@ def eq_mod(a, b, facts, variance="Invariant"):
             return None
         return "lifetimes %s / %s not related by the returned goals" % (sa, sb)
     if ka == "T":
+        if ha in ("HProjection", "HOpaqueAlias") or hb in ("HProjection", "HOpaqueAlias"):
+            if depth < 4:
+                for (x, y) in al:
+                    for (mine, other) in ((sa, b), (sb, a)):
+                        if x == mine and eq_mod(y, other, facts, variance, depth + 1) is None:
+                            return None
+            return "alias position %s / %s without AliasEq goal" % (sa[:80], sb[:80])
         if "HError" in (ha, hb):
             return None
-        if ha in ("HProjection", "HOpaqueAlias") or hb in ("HProjection", "HOpaqueAlias"):
-            if (sa, sb) in al or (sb, sa) in al:
-                return None
-            # non-invariant: alias = ?X, ?X related to the other side
-            for (x, y) in al:
-                if x in (sa, sb):
-                    other = sb if x == sa else sa
-                    if y == other or (y, other) in sub or (other, y) in sub:
-                        return None
-            return "alias position %s / %s without AliasEq goal" % (sa[:80], sb[:80])
-        if ha == "HInfer" and hb == "HInfer" and ((sa, sb) in sub or (sb, sa) in sub):
+        if (sa, sb) in sub or (sb, sa) in sub:
             return None
     if a[0] != "Node" or b[0] != "Node":
         return "differ: %s / %s" % (sa[:80], sb[:80])
     if ha in VAR_HEADS or hb in VAR_HEADS:
         if ha == hb and a[1][1] == b[1][1]:
             # same variable class, e.g. kinds of the two occurrences differ (general var bound to an int var)
-            return None if ka != "C" else eq_mod(a[2][0], b[2][0], facts, variance)
+            return None if ka != "C" else eq_mod(a[2][0], b[2][0], facts, variance, depth)
         return "unknown %s / %s not unified" % (sa[:80], sb[:80])
     if a[1] != b[1]:
         return "heads differ: %s / %s" % (sa[:80], sb[:80])
@@ -530,7 +522,7 @@ def eq_mod(a, b, facts, variance="Invariant"):
         return None if ha in ("HAdt", "HFnDef", "HAssocTy", "HOpaqueTy", "HClosure", "HTuple") else "arity differs"
     for i, (x, y) in enumerate(zip(a[2], b[2])):
         v = "Invariant" if variance == "Invariant" else "Any"
-        d = eq_mod(x, y, facts, v)
+        d = eq_mod(x, y, facts, v, depth)
         if d:
             return d
     return None
@@ -543,7 +535,8 @@ def placeholders_and_vars(t):
             h = hname(s)
             if h in ("HPlaceholder", "HLPlaceholder", "HCPlaceholder"):
                 phs.append((h, s[1][1], s[1][2]))
-            elif h in VAR_HEADS:
+            elif h in VAR_HEADS and not (h == "HInfer" and s[1][2] != "General"):
+                # an integer / float unknown can only ever become a scalar: its universe is immaterial
                 vs.append((h, s[1][1]))
     return phs, vs
 
